@@ -45,6 +45,32 @@ var checks = []*CheckSpec{
 	},
 }
 
+func init() {
+	checks = append(checks, &CheckSpec{
+		Prop:    "C05",
+		Harness: []string{"c06_expr.go", "c05_fixpoint.go"},
+		Entries: []EntrySpec{
+			{Pkg: "datalog", Func: "VerifC05Fixpoint",
+				Quick:    p("facts", 2, "rules", 1, "body", 2, "arity", 1, "vars", 2, "expr", 1, "kinds", 1, "varfacts", 0, "varrules", 0),
+				Thorough: p("facts", 3, "rules", 2, "body", 2, "arity", 2, "vars", 2, "expr", 1, "kinds", 1, "varfacts", 0, "varrules", 0),
+				Covers:   []string{"run-ok", "derived"}},
+			{Pkg: "datalog", Func: "VerifC05Fixpoint",
+				Quick:    p("facts", 2, "rules", 1, "body", 1, "arity", 1, "vars", 1, "expr", 0, "kinds", 5, "varfacts", 0, "varrules", 0),
+				Thorough: p("facts", 2, "rules", 1, "body", 2, "arity", 1, "vars", 2, "expr", 0, "kinds", 5, "varfacts", 0, "varrules", 0),
+				Covers:   []string{"run-ok", "derived"}},
+		},
+		Assumptions: append([]string{
+			"bounds (quick/thorough): initial facts 2/3, rules 1/2, body predicates <= 2, arity <= 1/2, <= 2 distinct variables, <= 1 integer comparison per rule; predicate names and constants fully symbolic 64-bit; run limits generous; deadline never reached (timeouts are C11)",
+			"rules are range-restricted (head variables occur in the body) as the property's fragment requires",
+		}, stdAssumptions...),
+		Models:      []string{modelCtx},
+		Explanation: "World.Run/Rule.Apply/combine (with its producer goroutine) are executed symbolically on a symbolic program; result checked against closure + well-founded derivation conditions, which characterise the least model",
+		LevelText:   "Bounded symbolic model checking of the Datalog engine: for every program shape within the bounds, with symbolic predicate names and constants (so which predicates/constants coincide is decided by the solver), the facts left by Run are shown closed under every rule and each derived fact is shown to have a derivation from earlier facts (together: exactly the least model); QueryRule is shown sound and complete w.r.t. the declarative matching definition.",
+		LevelNote:   "Bounds on program size as listed in evidence; limits/timeouts excluded (C11); expressions other than one integer comparison excluded (C06). Goroutines/channels of combine are interpreted by a deterministic scheduler (behaviour is schedule independent: coroutine).",
+		DesignRef:   "DESIGN.md §6 C05",
+	})
+}
+
 var pendingReason = "check not built yet in this session (planned, see DESIGN.md); listed here so that the manifest stays truthful"
 
 var notApplicable = []naEntry{
